@@ -238,6 +238,20 @@ system_flags = [
     r"\recent",
 ]
 
+# The system flags as we spell them, by their lower case names.
+#
+_system_flag_names = {
+    x.lower(): x
+    for x in (
+        r"\Answered",
+        r"\Flagged",
+        r"\Deleted",
+        r"\Seen",
+        r"\Draft",
+        r"\Recent",
+    )
+}
+
 # The list of commands that can be called via 'UID'
 #
 uid_commands = ("copy", "fetch", "move", "search", "store", "expunge")
@@ -2011,7 +2025,10 @@ class IMAPClientCommand:
         #
         flag += self._p_re(_atom_re)
 
-        return flag
+        # NOTE: The names of the system flags are case insensitive: `\seen`
+        #       is `\Seen`, not a keyword of its own.
+        #
+        return _system_flag_names.get(flag.lower(), flag)
 
     #######################################################################
     #
